@@ -34,6 +34,8 @@ structure PAtom (α : Type) where
   terminal : String         -- "", "N+", "C-"
   pos : V3 α
   live : Bool               -- still in `conformation.atoms` (`remove_all_hydrogen_atoms` drops atoms from the list only)
+  reg : Bool                -- entered the list through `add_atom` (parsed atoms and built hydrogens), which records the chain
+                            -- identifier in `conformation.chains`; `copy_atom` (topping-up) does not
   bonded : List Nat
   bridged : Bool
   sybyl : String
@@ -86,7 +88,7 @@ section
 variable {α : Type} [OfNat α 0]
 
 def PAtom.dflt : PAtom α :=
-  ⟨false, "", "", "", "", 0, "", "", ⟨0, 0, 0⟩, false, [], false, "", false, 0, 0, 0, 0, 0, false, false, ""⟩
+  ⟨false, "", "", "", "", 0, "", "", ⟨0, 0, 0⟩, false, false, [], false, "", false, 0, 0, 0, 0, 0, false, false, ""⟩
 
 def at' (s : St α) (i : Nat) : PAtom α := s.getD i PAtom.dflt
 
@@ -312,7 +314,7 @@ def addProton (s : St α) (i : Nat) (p : V3 α) : St α :=
   let a := at' s i
   let d : PAtom α := PAtom.dflt
   let h : PAtom α :=
-    { d with het := a.het, name := "H" ++ Py.str (a.name.toList.drop 1), elem := "H", resName := a.resName, chain := a.chain, resNum := a.resNum, icode := "", pos := p, live := true, bonded := [i] }
+    { d with het := a.het, name := "H" ++ Py.str (a.name.toList.drop 1), elem := "H", resName := a.resName, chain := a.chain, resNum := a.resNum, icode := "", pos := p, live := true, reg := true, bonded := [i] }
   let k := s.size
   let s1 := (s.push h).modify i fun x => { x with bonded := x.bonded ++ [k], toAdd := x.toAdd - 1 }
   let hs := bondedEl s1 i "H"
@@ -488,6 +490,7 @@ def renumber (order : List Nat) (n : Nat) : Array Nat :=
 structure Prepared (α : Type) where
   atoms : Array (PAtom α)       -- in the order of `conformation.atoms` after `sort_atoms`, bond lists renumbered
   groups : Array (PGroup α)
+  chains : List String          -- `conformation.chains`: chain identifiers in the order `add_atom` first met them
 
 /-- everything between `top_up_conformations` and `calculate_pka` for one conformation -/
 def prepare (P : PP α) (o : Opts) (s0 : St α) : Option (Prepared α) :=
@@ -507,7 +510,10 @@ def prepare (P : PP α) (o : Opts) (s0 : St α) : Option (Prepared α) :=
     let titr : Nat → Bool := fun g => ((garr[g]?).map (·.titratable)).getD false
     let grpOf : Nat → Option Nat := fun a => ((List.range garr.size).filter fun g => gatom g == a).getLast?
     let cov := Setup.covalentCoupling tab garr.size gatom grpOf titr (fun a => (atoms.getD a PAtom.dflt).sybyl) P.maxCouplingBonds
-    some ⟨atoms, (garr.zipIdx.map fun (p : PGroup α × Nat) => { p.1 with cov := cov.getD p.2 [] })⟩
+    -- parsed atoms come first, copies next, built hydrogens last: the order in which `add_atom` saw the registered ones
+    let chains := (List.range s3.size).foldl (fun (acc : List String) i =>
+      let a := at' s3 i; if a.reg && !acc.contains a.chain then acc ++ [a.chain] else acc) []
+    some ⟨atoms, (garr.zipIdx.map fun (p : PGroup α × Nat) => { p.1 with cov := cov.getD p.2 [] }), chains⟩
 end
 
 end Propka.Pipe
